@@ -144,7 +144,7 @@ def _program(r, ti, n_ops):
                     src['filename'] = f'{root}/virt{oi}_{si}.yaml'
             sources.append(src)
         ops.append({'sources': sources, 'eval': r.random() < 0.75, 'continue': r.random() < 0.3,
-                    'api': api})
+                    'api': api, 'ctxsym': r.random() < 0.2})      # ctxsym: evaluated with an own context whose symbol table the thread fills in itself
     return {'ti': ti, 'files': files, 'ops': ops}
 
 
@@ -273,6 +273,8 @@ def _client(prog, out):
                             if not op.get('continue'):
                                 raise _Stop()
                     rec['current_file_after'] = b.get_current_file()
+                    if op.get('ctxsym') and op['eval']:
+                        b.add_source('{ctxprobe: !eval "tsym"}\n', raw_yaml=True)
                     root = b.build()
                     if root is not None:
                         rec['tree'] = observe.tree_records(root)
@@ -291,7 +293,12 @@ def _client(prog, out):
                         except Exception as e:
                             rec['dump'] = type(e).__name__ + ': ' + observe.norm_text(e)[:200]
                         if op['eval']:
-                            cfg = Config(root)
+                            if op.get('ctxsym'):
+                                ctx = awesomeyaml.EvalContext()
+                                ctx.get_eval_symbols()['tsym'] = f'symbol-of-thread-program-{prog["ti"]}'
+                                cfg = Config(root, eval_ctx=ctx)
+                            else:
+                                cfg = Config(root)
                             rec['cfg'] = observe.native(cfg)
             except _Stop:
                 pass
